@@ -37,6 +37,7 @@ fn main() {
         "C11" => props::delay::c11(),
         "C12" => props::lifecycle_check::c12(),
         "C13" => props::synctest::c13(),
+        "C15" => props::timesync::c15(),
         "C16" => props::builder::c16(),
         "C17" => props::hashorder::c17(),
         "C18" => props::bounded::c18(),
